@@ -236,7 +236,23 @@ def module_of(pid):
     raise SystemExit("no module for " + pid)
 
 
-def run_one(m, out, base, budget, shards):
+def freeze_verif(out):
+    """Private copy of the harness so that edits in /verif during a long sweep
+    do not change (or break) the checks half-way."""
+    dst = os.path.join(out, "verif")
+    if os.path.exists(dst):
+        shutil.rmtree(dst)
+    os.makedirs(dst)
+    for nm in ("props", "vlib", "replays", "known_findings.json", "properties.jsonl"):
+        src = os.path.join(VERIF, nm)
+        if os.path.isdir(src):
+            shutil.copytree(src, os.path.join(dst, nm), ignore=shutil.ignore_patterns("__pycache__"))
+        else:
+            shutil.copy(src, dst)
+    return dst
+
+
+def run_one(m, out, base, budget, shards, verif=None, stage2=None):
     d = os.path.join(out, "work", m["id"])
     if os.path.exists(d):
         shutil.rmtree(d)
@@ -249,14 +265,20 @@ def run_one(m, out, base, budget, shards):
         src_lines = src_lines[:-1]
     open(os.path.join(tree, m["file"]), "w").write(apply_span(src_lines, tuple(m["span"]), None or m["_text"]))
     res = dict(id=m["id"], killed_by=None, checks={}, tests=None)
-    env = dict(os.environ, VERIF_SCRATCH=d, VERIF_DIR=VERIF, VERIF_TIER="quick",
-               VERIF_SEED="1", VERIF_REPO_COPY=tree, PYTHONPATH=tree + ":" + VERIF,
+    verif = verif or VERIF
+    env = dict(os.environ, VERIF_SCRATCH=d, VERIF_DIR=verif, VERIF_TIER="quick",
+               VERIF_SEED="1", VERIF_REPO_COPY=tree, PYTHONPATH=tree + ":" + verif,
                PYTHONHASHSEED="0", PYTHONDONTWRITEBYTECODE="1")
-    for pid in m["props"]:
+    plan = [(pid, budget, shards) for pid in m["props"]]
+    if stage2:
+        plan += [(pid, stage2[0], stage2[1]) for pid in m["props"]]
+    for pid, bud, shr in plan:
         t0 = time.time()
         try:
-            r = subprocess.run([PY, "-m", module_of(pid), "--no-evidence", "--budget", str(budget),
-                                "--shards", str(shards)], cwd=VERIF, env=env,
+            cmd = [PY, "-m", module_of(pid), "--no-evidence", "--shards", str(shr)]
+            if bud:
+                cmd += ["--budget", str(bud)]
+            r = subprocess.run(cmd, cwd=verif, env=env,
                                capture_output=True, text=True, timeout=900)
             rc = r.returncode
             tail = [ln for ln in r.stdout.split("\n") if ln.startswith("violation")][:1]
@@ -264,7 +286,8 @@ def run_one(m, out, base, budget, shards):
                 tail = (r.stdout + r.stderr).strip().split("\n")[-3:]
         except subprocess.TimeoutExpired:
             rc, tail = 124, ["timeout"]
-        res["checks"][pid] = dict(rc=rc, s=round(time.time() - t0, 1), note=[t[:300] for t in tail])
+        res["checks"][pid + ("" if pid not in res["checks"] else "#2")] = dict(
+            rc=rc, s=round(time.time() - t0, 1), note=[t[:300] for t in tail])
         if rc == 1:
             res["killed_by"] = pid
             break
@@ -310,11 +333,14 @@ def run(out, jobs, budget, shards, only, limit):
         if len(m["repl"]) >= 200:
             continue  # truncated text: skip (rare, very long expressions)
         todo.append(m)
+    import random
+    random.Random(0).shuffle(todo)   # partial sweeps stay representative
     if limit:
         todo = todo[:limit]
     print("to run:", len(todo), "already done:", len(done), flush=True)
+    verif = freeze_verif(out)
     with open(resf, "a") as fh, ThreadPoolExecutor(jobs) as ex:
-        for i, res in enumerate(ex.map(lambda m: run_one(m, out, base, budget, shards), todo)):
+        for i, res in enumerate(ex.map(lambda m: run_one(m, out, base, budget, shards, verif, (0, 4)), todo)):
             fh.write(json.dumps(res) + "\n")
             fh.flush()
             if i % 25 == 0:
@@ -346,8 +372,8 @@ if __name__ == "__main__":
     ap.add_argument("cmd", choices=["gen", "run", "report"])
     ap.add_argument("--out", default="/var/tmp/mutsweep")
     ap.add_argument("--jobs", type=int, default=8)
-    ap.add_argument("--budget", type=int, default=1500)
-    ap.add_argument("--shards", type=int, default=2)
+    ap.add_argument("--budget", type=int, default=300)
+    ap.add_argument("--shards", type=int, default=1)
     ap.add_argument("--only", nargs="*")
     ap.add_argument("--limit", type=int, default=0)
     a = ap.parse_args()
